@@ -114,15 +114,8 @@ func (st *state) loader(load, fetch, clear *core.Fn) {
 		c.Undecidedf("R2.newest", "LoadCheckpoint/comparison", loop.Pos(), "no comparison of the fetched offset with a running maximum found")
 		return
 	}
-	switch rel {
-	case token.GTR:
-		c.Okf("R2.newest", "LoadCheckpoint/comparison", cmp.Pos(), "a database's checkpoint is recorded only when its offset is strictly greater than the newest so far")
-	case token.GEQ:
-		c.Failf("R2.newest", "LoadCheckpoint/comparison", cmp.Pos(), "`>=`: a database without a checkpoint of this source (offset -1, run id \"\" or \"?\", version 0/-1) is recorded while newest is still -1; e.g. a target database that holds only another source's checkpoint hash makes LoadCheckpoint fail the version gate (version 0) or report that database instead of 'no checkpoint'")
-	default:
-		c.Failf("R2.newest", "LoadCheckpoint/comparison", cmp.Pos(), "the comparison `%s` records a checkpoint whose offset is not greater than the newest: with checkpoints at offsets 100 (db0) and 500 (db1) the older one at 100 is resumed and 400 bytes are replayed", c.Src(cmp))
-	}
-	guard := func(f cfgq.Fact) bool { return f.Expr == ast.Expr(cmp) && f.Val }
+	gval := true // the truth value of the comparison under which the checkpoint is recorded
+	guard := func(f cfgq.Fact) bool { return f.Expr == ast.Expr(cmp) && f.Val == gval }
 	// the four recorded variables
 	recName := []string{"run id", "offset", "version", "db"}
 	src := []types.Object{fr[0], fr[1], fr[2], dbKey}
@@ -143,10 +136,31 @@ func (st *state) loader(load, fetch, clear *core.Fn) {
 			}
 		}
 	}
-	var cb *cfg.Block
+	// guard clause form: `if offset <= newest { continue }` records under the negated comparison
+	if recAssign[1] != nil {
+		if okT, _ := x.OnlyVia(cfgq.Point{}, recAssign[1], guard); !okT {
+			gval = false
+			if okF, _ := x.OnlyVia(cfgq.Point{}, recAssign[1], guard); okF {
+				rel = map[token.Token]token.Token{token.LSS: token.GEQ, token.LEQ: token.GTR, token.GTR: token.LEQ, token.GEQ: token.LSS}[rel]
+			} else {
+				gval = true
+			}
+		}
+	}
+	switch rel {
+	case token.GTR:
+		c.Okf("R2.newest", "LoadCheckpoint/comparison", cmp.Pos(), "a database's checkpoint is recorded only when its offset is strictly greater than the newest so far")
+	case token.GEQ:
+		c.Failf("R2.newest", "LoadCheckpoint/comparison", cmp.Pos(), "`>=`: a database without a checkpoint of this source (offset -1, run id \"\" or \"?\", version 0/-1) is recorded while newest is still -1; e.g. a target database that holds only another source's checkpoint hash makes LoadCheckpoint fail the version gate (version 0) or report that database instead of 'no checkpoint'")
+	default:
+		c.Failf("R2.newest", "LoadCheckpoint/comparison", cmp.Pos(), "the comparison `%s` records a checkpoint whose offset is not greater than the newest: with checkpoints at offsets 100 (db0) and 500 (db1) the older one at 100 is resumed and 400 bytes are replayed", c.Src(cmp))
+	}
+	var cb *cfg.Block // successor block entered when the guard holds
 	for _, b := range g.CFG.Blocks {
-		if b.Live && x.Establishes(b, 0, guard) {
-			cb = b
+		for si := range b.Succs {
+			if b.Live && x.Establishes(b, si, guard) {
+				cb = b.Succs[si]
+			}
 		}
 	}
 	for k := range src {
@@ -158,7 +172,7 @@ func (st *state) loader(load, fetch, clear *core.Fn) {
 		ok, w := x.OnlyVia(cfgq.Point{}, recAssign[k], guard)
 		together := true
 		if cb != nil {
-			traces, err := x.Traces(cb.Succs[0], 0, func(b *cfg.Block) bool { return b.Kind == cfg.KindRangeLoop }, 200)
+			traces, err := x.Traces(cb, 0, func(b *cfg.Block) bool { return b.Kind == cfg.KindRangeLoop }, 200)
 			if err != nil {
 				together = false
 			}
@@ -252,9 +266,23 @@ func (st *state) loader(load, fetch, clear *core.Fn) {
 		return false
 	}
 	// version gate
+	// the field utils.Checkpoint.FeatureCompatibleVersion, identified by its object (the selector may
+	// be a copy made when a helper's facts were translated: no type is recorded for it)
+	var fcField types.Object
+	if pk := c.Pkg(pkgUtils); pk != nil {
+		if tn, ok := pk.Types.Scope().Lookup("Checkpoint").(*types.TypeName); ok {
+			if st, ok := tn.Type().Underlying().(*types.Struct); ok {
+				for i := 0; i < st.NumFields(); i++ {
+					if st.Field(i).Name() == "FeatureCompatibleVersion" {
+						fcField = st.Field(i)
+					}
+				}
+			}
+		}
+	}
 	isFC := func(e ast.Expr) bool {
 		s, ok := ast.Unparen(e).(*ast.SelectorExpr)
-		return ok && s.Sel.Name == "FeatureCompatibleVersion" && strings.HasSuffix(core.NamedTypePath(info.TypeOf(s.X)), pkgUtils+".Checkpoint")
+		return ok && fcField != nil && info.Uses[s.Sel] == fcField
 	}
 	relOf := func(f cfgq.Fact) (string, bool) { // relation version ? FC established by the fact
 		be, ok := ast.Unparen(f.Expr).(*ast.BinaryExpr)
@@ -281,8 +309,15 @@ func (st *state) loader(load, fetch, clear *core.Fn) {
 		return set, true
 	}
 	notAbsent := func(f cfgq.Fact) bool {
-		return pat.Expr("_v != -1").Match(info, f.Expr, nil) != nil && f.Val && localObj(info, f.Expr.(*ast.BinaryExpr).X) == rec[2] ||
-			pat.Expr("_v == -1").Match(info, f.Expr, nil) != nil && !f.Val && localObj(info, f.Expr.(*ast.BinaryExpr).X) == rec[2]
+		for _, t := range []struct {
+			p   string
+			val bool
+		}{{"_v != -1", true}, {"_v == -1", false}, {"_v >= 0", true}, {"_v < 0", false}} {
+			if b := pat.Expr(t.p).Match(info, f.Expr, nil); b != nil && f.Val == t.val && localObj(info, b["_v"].(ast.Expr)) == rec[2] {
+				return true
+			}
+		}
+		return false
 	}
 	gates, refused := 0, 0
 	for _, b := range g.CFG.Blocks {
@@ -320,6 +355,17 @@ func (st *state) loader(load, fetch, clear *core.Fn) {
 				ast.Inspect(cond, func(n ast.Node) bool {
 					if e, ok := n.(ast.Expr); ok && (isFC(e) || isSel(e, "IsCompatible")) {
 						mention = true
+					}
+					// a helper called in the condition may hold the comparison
+					if call, ok := n.(*ast.CallExpr); ok {
+						if h := c.FnOf(core.CalleeFunc(info, call)); h != nil && h.Decl.Body != nil && strings.HasPrefix(h.Obj.Pkg().Path(), core.Module) {
+							ast.Inspect(h.Decl.Body, func(m ast.Node) bool {
+								if s, ok := m.(*ast.SelectorExpr); ok && s.Sel.Name == "FeatureCompatibleVersion" {
+									mention = true
+								}
+								return true
+							})
+						}
 					}
 					return true
 				})
